@@ -64,8 +64,15 @@ def oracle_partition(name, stmts):
     while par[x] != x:
       par[x] = par[par[x]]; x = par[x]
     return x
+  import re
+  def norm(t):      # s.x[2:12][2:6] names the same bits as s.x[4:8]
+    while True:
+      m = re.search(r"\[(\d+):(\d+)\]\[(\d+):(\d+)\]", t)
+      if not m: return t
+      a0, b0, c0, d0 = map(int, m.groups())
+      t = t[:m.start()] + f"[{a0 + c0}:{a0 + d0}]" + t[m.end():]
   k = 0
-  for a, b in list(stmts) + list(CD.EXTRA_EDGES.get(name, [])):
+  for a, b in [(norm(x), norm(y)) for x, y in list(stmts) + list(CD.EXTRA_EDGES.get(name, []))]:
     if a.lstrip('-').isdigit(): a = f"CONST:{int(a)}#{k}"; k += 1     # every literal is its own Const object
     if b.lstrip('-').isdigit(): b = f"CONST:{int(b)}#{k}"; k += 1
     par[find(a)] = find(b)
